@@ -800,5 +800,15 @@ func GetNodeRawAllocatableFromNode(node *corev1.Node) corev1.ResourceList {
 		klog.V(3).Infof("Node %s has no raw-allocatable annotation, using node status allocatable", node.Name)
 		return allocatable
 	}
-	return rawAllocatable
+	// The annotation only lists the dimensions that can be amplified (cpu, memory); every other
+	// dimension (pods, ephemeral-storage, extended resources) is not amplified and is taken from the
+	// node status. Returning the annotation alone made their capacity, and so their thresholds, zero.
+	merged := allocatable.DeepCopy()
+	if merged == nil {
+		merged = corev1.ResourceList{}
+	}
+	for resourceName, quantity := range rawAllocatable {
+		merged[resourceName] = quantity
+	}
+	return merged
 }
